@@ -84,6 +84,9 @@ def response_spec(draw: Any, small: bool = False) -> Dict[str, Any]:
         "trailers": draw(st.one_of(st.none(), st.lists(st.sampled_from(
             [["x-checksum", "abc"], ["x-t", ""], ["grpc-status", "0"]]), min_size=1,
             max_size=2))),
+        # the shape in which the application hands over its header list (an Iterable)
+        "headers_as": draw(st.sampled_from(["list", "list", "tuple", "lists", "iter", "generator",
+                                            "map"])),
     }
 
 
@@ -111,6 +114,16 @@ def case_strategy(draw: Any, proto: str) -> Dict[str, Any]:
                                 + (["conn_only"] if proto == "h2" else [])))
     if pace == "conn_only":
         window = 1 << 20  # stream windows never run out; only connection-level credit is given
+    if proto == "h2" and pace in ("paused", "dribble") and draw(st.integers(0, 3)) == 0:
+        # a body that fills the flow-control window exactly: the end of the stream needs no
+        # credit and must not wait for any
+        w = 65535 if window is None else window
+        if 0 < w <= 70000:
+            r0 = reqs[0]["response"]
+            k = draw(st.integers(1, 3))
+            sizes = [w // k] * k
+            sizes[-1] += w - sum(sizes)
+            r0["chunks"] = [{"len": n, "seed": 17 + j} for j, n in enumerate(sizes)]
     if window is not None and window <= 1:
         for r in reqs:  # one byte per round trip: keep such bodies short
             r["response"]["chunks"] = [{"len": min(c["len"], 6), "seed": c["seed"]}
@@ -142,7 +155,8 @@ def app_program(req: Dict[str, Any]) -> list:
     headers = [list(h) for h in spec["headers"]]
     if spec["declare_cl"]:
         headers.insert(len(headers) // 2, ["content-length", str(len(body_of(spec)))])
-    start = {"type": "http.response.start", "status": spec["status"], "headers": headers}
+    start = {"type": "http.response.start", "status": spec["status"], "headers": headers,
+             "$headers_as": spec.get("headers_as", "list")}
     prog: list = [["recv_all"]]
     if spec["hints"]:
         prog.append(["send_if_ext", "http.response.early_hint",
@@ -155,7 +169,7 @@ def app_program(req: Dict[str, Any]) -> list:
     if spec["trailers"]:
         prog.append(["send_if_ext", "http.response.trailers",
                      {"type": "http.response.trailers", "headers": spec["trailers"],
-                      "more_trailers": False}])
+                      "more_trailers": False, "$headers_as": spec.get("headers_as", "list")}])
     prog.append(["recv_disc"])
     return prog
 
@@ -210,6 +224,7 @@ async def drive_h2(env: Any, case: Dict[str, Any]) -> Any:
     if case["max_frame"] is not None:
         settings[h2.settings.SettingCodes.MAX_FRAME_SIZE] = case["max_frame"]
     manual = case["pace"] != "fast"
+    holder_w: Dict[str, Any] = {}
     client = H2Client(conn, settings or None, ack_policy="manual" if manual else "immediate")
     reqs = case["requests"]
     first = 0
@@ -244,6 +259,7 @@ async def drive_h2(env: Any, case: Dict[str, Any]) -> Any:
                 break
         stalls = 0
         extra_credit = 0
+        locals_ = holder_w
         while stalls < 300:
             await env.settle0()
             progressed = client.pump()
@@ -266,6 +282,16 @@ async def drive_h2(env: Any, case: Dict[str, Any]) -> Any:
                     continue
                 break
             if manual and client.unacked:
+                # credit is about to be given; whatever needs none must already be here
+                spec_i = reqs[i]["response"]
+                want_len = 0 if suppressed(reqs[i]["method"], spec_i["status"]) \
+                    else len(body_of(spec_i))
+                if st_.get("responses") and len(st_.get("data", b"")) == want_len \
+                        and "withheld" not in locals_:
+                    await env.settle(5.0)
+                    client.pump()
+                    if not client.streams.get(sid, {}).get("ended"):
+                        locals_["withheld"] = (sid, want_len)
                 if case["pace"] == "paused":
                     await env.sleep(case["pause_dt"])
                     client.release_acks()
@@ -293,7 +319,7 @@ async def drive_h2(env: Any, case: Dict[str, Any]) -> Any:
     conn.rx_before_eof = len(conn.received())
     conn.eof()
     await env.settle(100.0)
-    return {"conn": conn, "client": client}
+    return {"conn": conn, "client": client, "withheld": holder_w.get("withheld")}
 
 
 def suppressed(method: str, status: int) -> bool:
@@ -374,6 +400,11 @@ def judge_h2(case: Dict[str, Any], obs: Any) -> None:
         raise Violation("h2c_upgrade_failed", repr(val["upgrade_failed"]), backend=be)
     if client.error:
         raise Violation("client_protocol_error", client.error, backend=be)
+    if val.get("withheld"):
+        raise Violation("end_of_stream_withheld", f"stream {val['withheld'][0]}: all "
+                        f"{val['withheld'][1]} body bytes had arrived, the window was used up, "
+                        f"and END_STREAM (which needs no credit) only came after a WINDOW_UPDATE",
+                        backend=be)
     data = conn.received()[:getattr(conn, "rx_before_eof", None)]
     if case["opening"] == "h2c-upgrade":
         data = data[data.find(b"\r\n\r\n") + 4:]
